@@ -22,19 +22,19 @@ CHECKS = {
          "Exploration: in every generated history the reported rate of each token and floor(balance x rate) of every holder whose balance did not move are compared across every non-slashing step; BondRewards must raise the stSei rate and mint nothing.",
          "DESIGN.md 5 C04"),
  "C05": ("property-based testing (proptest): generated slashed states x four fee paths x fee/threshold grid, results bounded by exact no-fee and maximal-fee recomputation and by the post-state peg gap",
-         "Exploration: thousands of short generated histories reach slashed states and run bond / unbond / convert (both directions) with amounts from 1 unit to the whole pool; the credited result must lie between the exact maximal-fee and no-fee results, equal the no-fee result at or above the threshold, and never leave backing above claims by more than 2 units.",
+         "Exploration: thousands of short generated histories reach slashed states and run bond / unbond / convert (both directions) with amounts from 1 unit to the whole pool; the credited result must lie between the exact maximal-fee and no-fee results, equal the no-fee result at or above the threshold, and never leave backing above claims by more than 2 units (also when the claims dropped to zero); a structured scenario exits with exactly the whole supply of large pools slashed to low rates.",
          "DESIGN.md 5 C05"),
  "C06": ("stateful property-based testing with injected slashing faults (proptest): exact pro-rata reference for the recognised totals and for every release group, CheckSlashing idempotence probes on cloned worlds",
-         "Exploration with fault injection: slashing events of any size on any validator (bonded and unbonding stake) are injected into generated histories; the State view must equal the exact pro-rata split of the surviving delegations (within 2 units), never rise, CheckSlashing must book exactly that view and be idempotent, and every release group must pay each (batch, token) its pro-rata share of the coins that arrived.",
+         "Exploration with fault injection: slashing events of any size on any validator (bonded and unbonding stake) are injected into generated histories; the State view must equal the exact pro-rata split of the surviving delegations (within 2 units), never rise, CheckSlashing must book exactly that view and be idempotent, and every release group must pay each (batch, token) its pro-rata share of the coins that arrived, measured against the checker's own ledger of the hub's accounted-for balance (which the hub's prev_hub_balance must equal); a successful withdrawal must leave no matured batch unreleased; contract migrations to the same code are part of the histories.",
          "DESIGN.md 5 C06"),
  "C07": ("stateful model-based property testing (proptest): reference claims ledger compared with UnbondRequests / CurrentBatch / AllHistory after every step; foreign Receive hooks must be rejected",
-         "Exploration: many users unbond both tokens via Send and SendFrom across epoch boundaries in generated histories; a reference ledger of (user, batch) claims must equal the hub's reports after every step, batch totals must equal the sum of claims (+ paid), entries may vanish only through their owner's withdrawal of a released batch, and hooks from anything but the two registered tokens must fail.",
+         "Exploration: many users unbond both tokens via Send and SendFrom across epoch boundaries in generated histories; a reference ledger of (user, batch) claims must equal the hub's reports after every step, batch totals must equal the sum of claims (+ paid), entries may vanish only through their owner's withdrawal of a released batch, and hooks from anything but the two registered tokens must fail; the credited claim is the whole amount at or above the threshold and never below amount x (1 - fee).",
          "DESIGN.md 5 C07"),
  "C08": ("stateful property-based testing (proptest) with boundary-relative clock generation: temporal predicates over the executed-message trace and AllHistory snapshots",
          "Exploration: generated period configurations (incl. 1 s) and histories whose clock moves land on -1/0/+1 s of the epoch and unbonding boundaries; release/payment only after the full unbonding period, undelegation only in an unbond strictly after the epoch period (and not skipped), consecutive batch ids, forward-only counters, released entries frozen, undelegated amount equal to the entry's valuation.",
          "DESIGN.md 5 C08"),
  "C09": ("stateful property-based testing (proptest) with must-succeed probes on cloned worlds and differential fault injection (swap/oracle stubs failing or returning garbage)",
-         "Exploration with fault injection: at sampled states of generated histories (slashed, dust, drained) every holder x token x {1, half, all} is taken through the whole exit (unbond, epoch+1, undelegating unbond, unbonding period, withdraw) on a cloned world and must succeed; every user-path operation is re-executed with failing / garbage swap and oracle stubs and must give the identical result and state.",
+         "Exploration with fault injection: at sampled states of generated histories (slashed, dust, drained) every holder x token x {1, half, all} is taken through the whole exit (unbond, epoch+1, undelegating unbond, unbonding period, withdraw) on a cloned world and must succeed; every user-path operation is re-executed with failing / garbage swap and oracle stubs and must give the identical result and state; withdrawals of the history itself must pay released claims in full and, while no unbonding stake was slashed, matured claims at the value they were undelegated for.",
          "DESIGN.md 5 C09"),
  "C13": ("stateful property-based testing (proptest): generated histories with registry operations, chain-state equations on the removal transaction (redelegation events, delegations, books)",
          "Exploration: validator removals (registered, unregistered, last; with pending rewards, in-flight batches, blocked redelegations) and re-additions are placed at arbitrary points of generated histories; a successful removal must leave nothing on the removed validator, redelegate exactly its stake to validators registered after the removal, change total delegated only by the rewards re-bonded, and later bonds must avoid unregistered validators.",
@@ -49,13 +49,13 @@ CHECKS = {
          "Exploration: in generated histories with mints, burns, transfers, allowance operations, claims and reward deliveries of all magnitudes (full path and direct deposits, also while nobody holds bSei) the sum of all holders' claimable rewards must stay <= recorded balance <= actual balance, a claim must succeed iff >= 1 unit accrued and pay exactly the integer part keeping the fraction, stranded dust must stay within (#updates + #holders + 1) and claimed <= delivered.",
          "DESIGN.md 5 C14"),
  "C15": ("metamorphic property-based testing (proptest): each generated scenario is executed as given, with other holders' operations permuted, and with the observed stake split over several accounts; relations between the executions are the oracle",
-         "Exploration of a relational property: generated reward-window scenarios are run several times against the real contracts; per update the observed holder's accrual must equal balance x indexed / supply within one unit, must not depend on the order of other holders' operations, must be additive under account splitting (within k units) and must neither leave with transferred / sent / unbonded / burnt tokens nor be earned by tokens acquired later.",
+         "Exploration of a relational property: generated reward-window scenarios are run several times against the real contracts; per update the observed holder's accrual must equal balance x indexed / supply within one unit, must not depend on the order of other holders' operations, must be additive under account splitting (within k units) and must neither leave with transferred / sent / unbonded / burnt tokens nor be earned by tokens acquired later; what each update has to index comes from the checker's own ledger, the AccruedRewards query is cross-checked wherever an accrual is read, and the owner may re-submit the reward contract's configuration inside a window.",
          "DESIGN.md 5 C15"),
  "C16": ("stateful property-based testing (proptest): two-contract mirror equality (cw20 balances vs reward-contract holder balances) after every step of generated bSei operation sequences",
          "Exploration: after every step of generated histories rich in bSei transfers, sends, allowance operations, allowance burns and hub-mediated burns, the reward contract's recorded balance of every address either contract enumerates must equal its bSei balance and the totals must agree.",
          "DESIGN.md 5 C16"),
- "C12": ("property-based testing (proptest) of the two pure distribution functions over generated raw inputs: postcondition predicates (conservation, caps, floors) and a 5 s termination watchdog",
-         "Exploration: millions of generated (validator list, amount) inputs - zeros, ties, near-even, tiny, up to 2^100, sorted either way or unsorted, lists up to 60 - are fed to calculate_delegations / calculate_undelegations; the plan must distribute / remove exactly the amount, respect the even-share cap and floor, fail exactly for an empty list or an amount above the total, and return.",
+ "C12": ("property-based testing (proptest) of the two pure distribution functions over generated raw inputs: postcondition predicates (conservation, caps, floors) and a 15 s termination watchdog confirmed by a re-run; plus generated system histories whose executed Delegate messages are held to the same oracle over the whole registered set",
+         "Exploration: millions of generated (validator list, amount) inputs - zeros, ties, near-even, tiny, up to 2^100, sorted either way or unsorted, lists up to 60 - are fed to calculate_delegations / calculate_undelegations; the plan must distribute / remove exactly the amount, respect the even-share cap and floor, fail exactly for an empty list or an amount above the total, and return. One case in 600 is a full-system history: the registry's GetValidatorsForDelegation answer must be the stored registered set with the hub's real delegations, and the Delegate messages of every bond must satisfy the plan oracle over that whole set.",
          "DESIGN.md 5 C12"),
  "C18": ("model-based property testing (proptest): reference cw20 ledger (balances, supply, allowances with expiry) against both token contracts over generated instantiate messages and operation sequences",
          "Exploration: generated instantiate messages (repeated addresses, zero amounts, invalid metadata) and sequences of all cw20 operations by arbitrary principals with amounts around balances / allowances and expirations crossed by clock moves; whatever the reference ledger forbids must be rejected, an accepted operation must have exactly the ledger's effect, the enumerated balances must sum to the total supply in every state, the minter must stay the hub and every stSei burn / bSei allowance burn must carry a hub CheckSlashing.",
